@@ -34,7 +34,7 @@ PROBES = [
     "probe.zero_packets", "probe.cut_in_record_header", "probe.cut_in_record_data", "probe.cut_on_boundary",
     "probe.chunk_in_record_header", "probe.chunk_in_global_header", "probe.modified_then_written", "probe.written_twice",
     "probe.no_packet_selected", "probe.end_filter", "probe.skip_pcap", "probe.nondefault_header", "probe.local_used",
-    "probe.command_mode", "probe.packet_gt_8192",
+    "probe.command_mode", "probe.packet_gt_8192", "probe.end_only_program", "probe.nested_field_modified_then_written",
 ]
 
 M = 1000003
@@ -46,11 +46,16 @@ VARS = ["NP", "PL", "WL", "TSS", "TSU"]
 # generated filter language: AST (JSON-able), source rendering, reference evaluation
 
 PKTLESS = [False]
+ETH = [False]      # packets are Ethernet frames with an unparsed ethertype: ($1).src/dst/type usable
+MACS = ["11:22:33:44:55:66", "AA:BB:CC:DD:EE:FF", "00:00:00:00:00:00", "FF:FF:FF:FF:FF:FF", "02:42:AC:11:00:02"]
 
 
 def gen_iexpr(rng, depth, nglob, locs):
     if depth <= 0 or rng.chance(35):
-        k = rng.weighted([(25, "c"), (30, "v"), (15 if nglob else 0, "g"), (12 if locs else 0, "l"), (0 if PKTLESS[0] else 18, "f")])
+        k = rng.weighted([(25, "c"), (30, "v"), (15 if nglob else 0, "g"), (12 if locs else 0, "l"), (0 if PKTLESS[0] else 18, "f"),
+                          (8 if ETH[0] and not PKTLESS[0] else 0, "etype")])
+        if k == "etype":
+            return ["etype"]
         if k == "c":
             return ["c", rng.choice([0, 1, 2, 3, 7, 10, 60, 64, 100, 1000, 1514, 4096, 65535])]
         if k == "v":
@@ -71,7 +76,9 @@ def gen_iexpr(rng, depth, nglob, locs):
 
 def gen_bexpr(rng, depth, nglob, locs):
     if depth <= 0 or rng.chance(50):
-        k = rng.weighted([(80, "cmp"), (10, "t"), (10, "f")])
+        k = rng.weighted([(80, "cmp"), (10, "t"), (10, "f"), (12 if ETH[0] and not PKTLESS[0] else 0, "maceq")])
+        if k == "maceq":
+            return ["maceq", rng.choice(["src", "dst"]), rng.choice(MACS)]
         if k == "cmp":
             return ["cmp", rng.choice(["==", "!=", "<", "<=", ">", ">="]), gen_iexpr(rng, depth, nglob, locs), gen_iexpr(rng, depth, nglob, locs)]
         return [k]
@@ -87,7 +94,14 @@ def gen_stmts(rng, nglob, locs, fidx, skip, allow_if=True, allow_let=True, n=Non
     locs = list(locs)
     for _ in range(n):
         k = rng.weighted([(25 if nglob else 0, "gset"), (15 if allow_let else 0, "let"), (30, "eprint"), (12 if skip else 0, "print"),
-                          (0 if in_end else 18, "fset"), (12 if allow_if else 0, "if")])
+                          (0 if in_end else 18, "fset"), (12 if allow_if else 0, "if"),
+                          (18 if ETH[0] and not in_end else 0, "mac"), (8 if ETH[0] and not in_end else 0, "eprintmac")])
+        if k == "mac":
+            out.append(["mac", rng.choice(["src", "dst"]), rng.choice(MACS)])
+            continue
+        if k == "eprintmac":
+            out.append(["eprintmac", "M%d" % fidx])
+            continue
         if k == "gset":
             out.append(["gset", rng.below(nglob), ["%", gen_iexpr(rng, 2, nglob, locs), M]])
         elif k == "let":
@@ -119,6 +133,8 @@ def src_iexpr(e):
         return "l%d" % e[1]
     if t == "f":
         return "($0).%s" % e[1]
+    if t == "etype":
+        return "($1).type"
     if t == "%":
         return "(%s %% %d)" % (src_iexpr(e[1]), e[2])
     return "(%s %s %s)" % (src_iexpr(e[1]), t, src_iexpr(e[2]))
@@ -132,6 +148,8 @@ def src_bexpr(e):
         return "false"
     if t == "cmp":
         return "(%s %s %s)" % (src_iexpr(e[2]), e[1], src_iexpr(e[3]))
+    if t == "maceq":
+        return '(($1).%s == "%s")' % (e[1], e[2])
     if t == "not":
         return "!%s" % src_bexpr(e[1])
     return "(%s %s %s)" % (src_bexpr(e[1]), "&&" if t == "and" else "||", src_bexpr(e[2]))
@@ -150,6 +168,10 @@ def src_stmts(stmts):
             out.append('%s("%s%s", %s);' % (fn, s[1], " {}" * len(s[2]), ", ".join(src_iexpr(x) for x in s[2])))
         elif t == "fset":
             out.append("($0).%s = %s;" % (s[1], src_iexpr(s[2])))
+        elif t == "mac":
+            out.append('($1).%s = "%s";' % (s[1], s[2]))
+        elif t == "eprintmac":
+            out.append('eprintln("%s {} {} {}", ($1).src, ($1).dst, ($1).type);' % s[1])
         elif t == "if":
             # `if` is an expression: without the ';' a following '(' would parse as a call on its value
             out.append("if %s { %s } else { %s };" % (src_bexpr(s[1]), src_stmts(s[2]), src_stmts(s[3])))
@@ -171,6 +193,11 @@ def program_source(prog):
     if prog["end"] is not None:
         lines.append("@ end { %s }" % src_stmts(prog["end"]))
     return "\n".join(lines) + "\n"
+
+
+def _mac_text(data, which):
+    off = 6 if which == "src" else 0
+    return ":".join("%02X" % x for x in data[off:off + 6])
 
 
 def _trunc_rem(a, b):
@@ -202,6 +229,8 @@ def ev_i(e, env):
         return env.l[e[1]]
     if t == "f":
         return env.pkt[e[1]]
+    if t == "etype":
+        return (env.data[12] << 8) | env.data[13]
     if t == "%":
         return _trunc_rem(ev_i(e[1], env), e[2])
     a, b = ev_i(e[1], env), ev_i(e[2], env)
@@ -224,6 +253,8 @@ def ev_b(e, env):
         return ev_b(e[1], env) and ev_b(e[2], env)
     if t == "or":
         return ev_b(e[1], env) or ev_b(e[2], env)
+    if t == "maceq":
+        return _mac_text(env.data, e[1]) == e[2]
     a, b = ev_i(e[2], env), ev_i(e[3], env)
     return {"==": a == b, "!=": a != b, "<": a < b, "<=": a <= b, ">": a > b, ">=": a >= b}[e[1]]
 
@@ -242,6 +273,13 @@ def ev_stmts(stmts, env):
         elif t == "fset":
             env.pkt[s[1]] = ev_i(s[2], env) & 0xFFFFFFFF
             env.modified = True
+        elif t == "mac":
+            off = 6 if s[1] == "src" else 0
+            env.data[off:off + 6] = bytes(int(x, 16) for x in s[2].split(":"))
+            env.modified = True
+            env.nested_modified = True
+        elif t == "eprintmac":
+            env.err.append("%s %s %s %d" % (s[1], _mac_text(env.data, "src"), _mac_text(env.data, "dst"), (env.data[12] << 8) | env.data[13]))
         elif t == "if":
             ev_stmts(s[2] if ev_b(s[1], env) else s[3], env)
 
@@ -256,6 +294,8 @@ def reference(prog, hdr, recs, skip):
     info = {"selected": [], "modified_written": 0, "twice": 0}
     for idx, r in enumerate(recs):
         data = pcapfmt.record_payload(r)
+        env.data = bytearray(data)
+        env.nested_modified = False
         env.pkt = {"sec": r["sec"], "usec": r["usec"], "caplen": len(data), "wirelen": r["wirelen"]}
         env.vars = {"NP": idx + 1, "PL": len(data), "WL": r["wirelen"], "TSS": r["sec"], "TSU": r["usec"]}
         env.modified = False
@@ -267,9 +307,11 @@ def reference(prog, hdr, recs, skip):
                     nsel += 1
                     if not skip:
                         import struct
-                        out += struct.pack("<IIII", env.pkt["sec"], env.pkt["usec"], env.pkt["caplen"], env.pkt["wirelen"]) + data
+                        out += struct.pack("<IIII", env.pkt["sec"], env.pkt["usec"], env.pkt["caplen"], env.pkt["wirelen"]) + bytes(env.data)
                         if env.modified:
                             info["modified_written"] += 1
+                        if env.nested_modified:
+                            info["nested_written"] = info.get("nested_written", 0) + 1
             else:
                 if f["pat"] is None or ev_b(f["pat"], env):
                     ev_stmts(f["act"], env)
@@ -294,10 +336,21 @@ def reference(prog, hdr, recs, skip):
 # ---------------------------------------------------------------------------
 # generation
 
-def gen_program(rng, skip):
+def gen_program(rng, skip, eth=False):
+    ETH[0] = eth
+    try:
+        return _gen_program(rng, skip)
+    finally:
+        ETH[0] = False
+
+
+def _gen_program(rng, skip):
     nglob = rng.range(0, 3)
     prog = {"globals": [rng.choice([0, 1, 5, 100, 999]) for _ in range(nglob)], "filters": [], "end": None}
     nf = rng.range(1, 5)
+    end_only = rng.chance(7)   # a program whose only filter is `@ end`
+    if end_only:
+        nf = 0
     for i in range(nf):
         # a modifying action followed by a selecting filter is the interesting order
         k = rng.weighted([(40, "bare"), (35, "both"), (25, "act")]) if i < nf - 1 else rng.weighted([(60, "bare"), (25, "both"), (15, "act")])
@@ -312,7 +365,7 @@ def gen_program(rng, skip):
             prog["filters"].append({"pat": gen_bexpr(rng, 2, nglob, []), "act": gen_stmts(rng, nglob, [], i, skip)})
         else:
             prog["filters"].append({"pat": None, "act": gen_stmts(rng, nglob, [], i, skip)})
-    if rng.chance(60):
+    if end_only or rng.chance(60):
         st = [["eprint", "END", [["v", "NP"]] + [["g", i] for i in range(nglob)]]]
         if rng.chance(30):
             PKTLESS[0] = True   # an end filter must not read per-packet state (PL/WL are null there)
@@ -341,6 +394,12 @@ def generate(rng, tier, idx):
     hdr = pcapfmt.gen_header(rng, plain=plain_hdr)
     n = rng.weighted([(8, 0), (12, 1), (30, rng.range(2, 6)), (35, rng.range(6, 20)), (15, rng.range(20, 40))])
     recs = [pcapfmt.gen_record(rng, hdr["snaplen"], allow_huge=rng.chance(3)) for _ in range(n)]
+    eth = hdr["snaplen"] >= 64 and rng.chance(35)
+    if eth:
+        # every packet is an Ethernet frame whose ethertype p2sh leaves unparsed (payload stays raw)
+        for r in recs:
+            r["data"] = {"t": "eth", "n": max(14, r["data"]["n"]), "seed": r["data"]["seed"], "etype": rng.choice([0x88B5, 0x88B6, 0x9000])}
+            r["wirelen"] = max(r["wirelen"], 0)
     cut = None
     if rng.chance(30):
         offs = pcapfmt.record_offsets(recs)
@@ -359,7 +418,7 @@ def generate(rng, tier, idx):
             else:
                 cut = rng.range(24, total)
         cut = max(24, min(cut, total))
-    return {"hdr": hdr, "recs": recs, "cut": cut, "skip": skip, "prog": gen_program(rng, skip),
+    return {"hdr": hdr, "recs": recs, "cut": cut, "skip": skip, "prog": gen_program(rng, skip, eth), "eth": eth,
             "cmd": rng.chance(25), "chunks": content.chunk_plan(rng), "rseed": rng.u64() >> 8}
 
 
@@ -475,6 +534,8 @@ def check(model, results):
         inc("probe.modified_then_written")
     if info["twice"]:
         inc("probe.written_twice")
+    if info.get("nested_written"):
+        inc("probe.nested_field_modified_then_written")
     if recs and not any(info["selected"]):
         inc("probe.no_packet_selected")
     if model["prog"]["end"] is not None:
@@ -487,6 +548,8 @@ def check(model, results):
         inc("probe.local_used")
     if model["cmd"]:
         inc("probe.command_mode")
+    if not model["prog"]["filters"]:
+        inc("probe.end_only_program")
     if any(r["data"]["n"] > 8192 for r in recs):
         inc("probe.packet_gt_8192")
     inc("ops.packets", len(recs))
